@@ -11,6 +11,14 @@ TRUST = (
 
 # pid -> dict(technique, text, note, design_ref)
 CLAIMED = {
+    "C05": dict(
+        technique="static analysis: loop-bound inference for index-advancing scans, reviewed table of next()/index() sites with dominance-checked guards, shape of the exception-to-violation handler in BaseRule.crawl",
+        text="Decides the absence of two shapes of latent IndexError/StopIteration/ValueError in rule and reflow code: every index-advancing while/count() scan "
+        "bounds its index by the sequence length; every next() without default and .index() site is guarded (try, default, dominating membership test) or is a "
+        "reviewed table entry; and BaseRule.crawl converts any exception of _eval/_eval_rust into an 'Unexpected exception' violation without re-raising.",
+        note="Does not decide total exception freedom of ~25k lines of rule code over all trees. " + TRUST,
+        design_ref="DESIGN.md §3 C05",
+    ),
     "C10": dict(
         technique="static analysis: must-pass-through on the CFG (discard step before fixes are handed over), who-may-construct table for SourceFix, must-guard of patch appends, def-use of source-only slices",
         text="Decides that the four independent template-safety filters are wired on every path: every LintResult passes discard_unsafe_fixes unless the "
@@ -35,6 +43,21 @@ CLAIMED = {
         "the explicit unparsable arms, or constant False — never a constant True or a value left over from a child.",
         note="Does not decide that validation of the edited token list implies that the re-lexed text parses (value-level gap named by the property itself). " + TRUST,
         design_ref="DESIGN.md §3 C13",
+    ),
+    "C14": dict(
+        technique="static analysis: who-may-construct over the RawSegment class hierarchy in rules/layout and utils/reflow, receiver classification of .edit() and LintFix.delete sites by dominating is_type tests / iterated collection / ReflowPoint invariant, frozen move table",
+        text="Decides what layout code is able to put into or take out of a fix: every segment constructed in layout rules and reflow is a whitespace or newline "
+        "segment with whitespace-only constant text; every raw .edit() is applied to a whitespace-like receiver; every ReflowPoint is built from whitespace-like "
+        "segments only; every delete of something not established as whitespace/newline/indent is one half of a move (re-inserted in the same result) or a reviewed table entry.",
+        note="Does not decide that the amount of whitespace is right or that moved segments keep their order. Syntactic classification only (no type checker). " + TRUST,
+        design_ref="DESIGN.md §3 C14",
+    ),
+    "C15": dict(
+        technique="static analysis: abstract domain of case-homomorphic string expressions (closed under str case methods, conditional choice and group-tiling regex.sub) over the CP rules, with regex ASTs",
+        text="Decides that every edit built by the capitalisation rules is replace(anchor, [anchor.edit(new_raw)]) with new_raw a case-homomorphic image of anchor.raw "
+        "(only letter case can differ), with one replacement segment anchored on the edited segment itself.",
+        note="Does not decide which tokens are selected for editing; the opt-in native path (sqlfluffrs) is outside the analysed tree. Known finding: the documented snake policy inserts underscores. " + TRUST,
+        design_ref="DESIGN.md §3 C15",
     ),
     "C18": dict(
         technique="static analysis: path-sensitive gate proof over the CFG (relevant-branch DNF dataflow) with suppression-filter kind inference of counts; interprocedural lifting of sinks to call sites",
